@@ -91,6 +91,16 @@ class FnVal:
         return DFN(a, b)
 
 
+class Opt:
+    """Optional[list]: `present` is a z3 Bool (or Python bool), `value` the list when present"""
+
+    def __init__(self, present, value):
+        self.present, self.value = present, value
+
+    def __getitem__(self, i):
+        return self.value[i]
+
+
 class ModRef:
     def __init__(self, kind, name):
         self.kind, self.name = kind, name
@@ -193,6 +203,8 @@ def merge_values(c, a, b):
         return None
     if isinstance(a, (Matrix, FnVal)) and type(a) == type(b):
         return a
+    if isinstance(a, Opt) and isinstance(b, Opt):
+        return Opt(L.ite(c, L.to_z3_bool(a.present), L.to_z3_bool(b.present)), merge_values(c, a.value, b.value))
     if isinstance(a, str) and isinstance(b, str):
         if a == b:
             return a
@@ -307,6 +319,8 @@ class ObjView:
 
     def __getattr__(self, f):
         fields = self._st.heap[self._ref.oid]
+        if f == "nodes" and "nodes.len" in fields:
+            return NodeListView(self._ex, self._st, self._ref.oid)
         if f in fields:
             return wrap(self._ex, self._st, fields[f])
         if f == "n_nodes" and "nodes.len" in fields:
@@ -364,6 +378,8 @@ def solve(ob, timeout_ms=20000):
         # vacuity guard: the hypotheses alone must not be contradictory (sat or unknown is fine)
         s = z3.Solver()
         s.set("timeout", 3000)
+        s.set("auto_config", False)
+        s.set("smt.mbqi", False)
         for a in getattr(ob, "defs", []):
             s.add(a)
         for a in ob.assumptions:
@@ -378,24 +394,32 @@ def solve(ob, timeout_ms=20000):
         return ob
     if g is False:
         g = z3.BoolVal(False)
-    s = z3.Solver()
-    s.set("timeout", timeout_ms)
-    for a in getattr(ob, "defs", []):
-        s.add(a)
-    for a in ob.assumptions:
-        s.add(a)
-    s.add(z3.Not(g))
-    r = s.check()
+    # portfolio: E-matching only first (fast and stable), then z3's default configuration (MBQI on)
+    r = z3.unknown
+    for (mbqi, tmo) in ((False, max(2000, timeout_ms // 4)), (True, timeout_ms)):
+        s = z3.Solver()
+        s.set("timeout", tmo)
+        if not mbqi:
+            s.set("auto_config", False)
+            s.set("smt.mbqi", False)
+        for a in getattr(ob, "defs", []):
+            s.add(a)
+        for a in ob.assumptions:
+            s.add(a)
+        s.add(z3.Not(g))
+        r = s.check()
+        ob.solver = "z3-" + z3.get_version_string() + ("/ematching" if not mbqi else "/default")
+        if r == z3.unsat:
+            break
+        if r == z3.sat:
+            try:
+                ob.model = s.model()
+            except z3.Z3Exception:
+                pass
+            break
+        ob.reason = s.reason_unknown()
     ob.seconds = time.time() - t0
     ob.status = str(r)
-    ob.solver = "z3-" + z3.get_version_string()
-    if r == z3.sat:
-        try:
-            ob.model = s.model()
-        except z3.Z3Exception:
-            pass
-    if r == z3.unknown:
-        ob.reason = s.reason_unknown()
     return ob
 
 
@@ -633,6 +657,8 @@ class Exec:
             return FnVal()
         if ty == "none":
             return None
+        if ty.startswith("optlist["):
+            return Opt(fresh(pname + ".given", BOOL), fresh_list(pname, ty[8:-1]))
         raise Unsupported("param type %s" % ty)
 
     def read_path(self, st, path):
@@ -645,6 +671,11 @@ class Exec:
 
     def apply_anchor(self, st, anchor):
         c = self.contract
+        for (a, fnh) in c.hints:
+            if a != anchor or not getattr(fnh, "early", True):
+                continue
+            for name, term in fnh(self.ns(st), self.ns(self.old)):
+                self.oblige(st, "hint", anchor, name, term)
         for (a, lname, binder) in c.lemmas:
             if a != anchor:
                 continue
@@ -657,11 +688,6 @@ class Exec:
             else:
                 concl = L.forall(lem.lo(**args), lem.hi(**args), lambda k: lem.concl(k=k, **args))
             st.assume(concl)
-        for (a, fnh) in c.hints:
-            if a != anchor:
-                continue
-            for name, term in fnh(self.ns(st), self.ns(self.old)):
-                self.oblige(st, "hint", anchor, name, term)
         for (a, src) in c.ghost:
             if a != anchor:
                 continue
@@ -857,7 +883,8 @@ class Exec:
                 s.locals[cname] = self.binop(s, ast.Add(), s.locals[cname], step, None)
                 s.locals[tgt.id] = s.locals[cname]
 
-            def auto(s, cname=cname, lo=lo, hi=hi, step=step):
+            def auto(s, cname=cname, lo=lo, hi=hi, step=step, tgt=tgt):
+                s.locals[tgt.id] = s.locals[cname]   # at the loop head the loop variable IS the counter
                 k = s.locals[cname]
                 if step == 1:
                     return [("range", L.conj(L.le(lo, k), L.disj(L.le(k, hi), L.conj(L.lt(hi, lo), L.eq(k, lo)))))]
@@ -1019,7 +1046,7 @@ class Exec:
             return NodeRef(cur.oid, fresh(nm, INT))
         if isinstance(cur, str):
             return fresh(nm, INT)
-        if cur is None or isinstance(cur, (ObjRef, NodeList, Matrix, FnVal)):
+        if cur is None or isinstance(cur, (ObjRef, NodeList, Matrix, FnVal, Opt)):
             return cur
         raise Unsupported("havoc of %r" % (cur,))
 
@@ -1413,6 +1440,10 @@ class Exec:
             n = st.heap[base.oid]["nodes.len"]
             self.oblige(st, "safe", "index", "node", L.conj(L.le(0, idx), L.lt(idx, n)), e)
             return NodeRef(base.oid, L.lift(idx, INT))
+        if isinstance(base, Opt):
+            self.oblige(st, "safe", "none", "present", base.present, e)
+            self.check_index(st, base.value, idx, e)
+            return base.value[idx]
         if isinstance(base, Matrix):
             return base[idx]
         if isinstance(base, MatrixRow):
@@ -1492,6 +1523,13 @@ class Exec:
         return L.conj(*res)
 
     def compare(self, st, op, a, b, node):
+        if isinstance(op, (ast.Is, ast.IsNot)) and (isinstance(a, Opt) or isinstance(b, Opt)):
+            o = a if isinstance(a, Opt) else b
+            other = b if isinstance(a, Opt) else a
+            if other is not None:
+                raise Unsupported("`is` between optional and non-None")
+            r = L.neg(o.present)
+            return r if isinstance(op, ast.Is) else L.neg(r)
         if isinstance(op, (ast.Is, ast.IsNot)):
             if b is None or a is None:
                 r = (a is None) == (b is None)
